@@ -38,6 +38,9 @@ CHECKS = {
  'C05': dict(cat='proof', tech='deductive: representation invariant + step postcondition on one iteration of the real process_io_buffer loop for arbitrary buffered bytes; handle_pushed/process_msg dispatch postconditions',
              text='For any buffered byte string, an iteration either delivers exactly the first complete frame (exact header fields and body, exactly its bytes removed) or changes nothing; chunking independence follows by induction over reads from the representation invariant (meta-argument).',
              ref='DESIGN.md §4 C05'),
+ 'C19': dict(cat='proof', tech='deductive: typestate contracts with a ghost log of sent messages on the real ResponseFuture._set_result (UNPREPARED branch), _reprepare and _execute_after_prepare, callee contracts for pool/connection/executor',
+             text='Each of the three functions that implement re-preparation is verified against its contract for all protocol versions, keyspace combinations, pool states and response kinds; the response-sequence (history) clause is the composition of these contracts (meta-argument, A-EXEC for the executor hop).',
+             ref='DESIGN.md §4 C19'),
 }
 
 NA_REASON = {}
